@@ -889,7 +889,6 @@ int load_from_file(const char* file_content,
                    rtosc_version appver,
                    savefile_dispatcher_t* dispatcher)
 {
-    char appbuf[128];
     int bytes_read = 0;
 
     if(dispatcher)
@@ -915,9 +914,23 @@ int load_from_file(const char* file_content,
     bytes_read += n;
     n = 0;
 
-    sscanf(file_content,
-           " %% %127s v%u.%u.%u%n ", appbuf, &vma, &vmi, &vre, &n);
-    if(n <= 0 || strcmp(appbuf, appname) || vma > 255 || vmi > 255 || vre > 255)
+    // the name is compared literally (it may contain blanks)
+    {
+        int n0 = 0;
+        sscanf(file_content, " %% %n", &n0);
+        const size_t name_len = strlen(appname);
+        if(n0 > 0 && !strncmp(file_content + n0, appname, name_len))
+        {
+            sscanf(file_content + n0 + name_len,
+                   " v%u.%u.%u%n ", &vma, &vmi, &vre, &n);
+            // a blank must separate the name from the version
+            if(n > 0 && isspace(file_content[n0 + name_len]))
+                n += n0 + name_len;
+            else
+                n = 0;
+        }
+    }
+    if(n <= 0 || vma > 255 || vmi > 255 || vre > 255)
         return -bytes_read-1;
 
     if(dispatcher)
